@@ -29,7 +29,7 @@ Emit(e, f, d) ==
     IN /\ obs' = n
        /\ bad' = IF bad # "" THEN bad ELSE FirstFailP(Clauses(obs, n, ev))
 E0(k) == [k |-> k, file |-> 0, dev |-> 0, ok |-> "na", pin |-> NoPin, op |-> "na", outcome |-> "na",
-          force |-> FALSE]
+          force |-> FALSE, mem |-> NoPin]
 H(x) == hist' = Append(hist, x)
 
 Boot == /\ pc = "boot"
@@ -109,11 +109,11 @@ Abort == /\ pc = "abort" /\ pc' = "stopping"
          /\ UNCHANGED <<file, dev, mem, newp, force, lives, faults, crashes, fresh, obs, bad, hist, recon, reboots>>
 
 Stopping == /\ pc = "stopping" /\ pc' = "dead"
-            /\ Emit([E0("end") EXCEPT !.outcome = "stop"], file, dev) /\ H([a |-> "end", outcome |-> "stop"])
+            /\ Emit([E0("end") EXCEPT !.outcome = "stop", !.mem = mem], file, dev) /\ H([a |-> "end", outcome |-> "stop"])
             /\ UNCHANGED <<file, dev, mem, newp, force, lives, faults, crashes, fresh, recon, reboots>>
 
 Serve == /\ pc = "serve" /\ pc' = "serving"
-         /\ Emit([E0("end") EXCEPT !.outcome = "serve"], file, dev) /\ H([a |-> "end", outcome |-> "serve"])
+         /\ Emit([E0("end") EXCEPT !.outcome = "serve", !.mem = mem], file, dev) /\ H([a |-> "end", outcome |-> "serve"])
          /\ UNCHANGED <<file, dev, mem, newp, force, lives, faults, crashes, fresh, recon, reboots>>
 
 \* the process dies at a step boundary: volatile state is lost, durable state stays as it is
